@@ -51,6 +51,9 @@ pub struct HostCall {
     pub stack_height: usize,
     pub call_depth: usize,
     pub dispatches: u64,
+    /// allocations made by the run so far
+    #[serde(default)]
+    pub allocs: u64,
 }
 
 /// auxiliary data of the simulated VM: the host side of the simulation
@@ -104,6 +107,7 @@ fn enter(vm: &mut Vm<Host>, name: &str, args: &[Value]) -> HostDecision {
         stack_height: vm.runtime_data.verif_stack_height(),
         call_depth: vm.runtime_data.verif_call_depth(),
         dispatches: ctl.counters().dispatches,
+        allocs: ctl.counters().allocs,
     };
     vm.auxiliary_data.log.push(call);
     if d == HostDecision::Fail {
@@ -224,8 +228,14 @@ pub fn stub_mark(vm: &mut Vm<Host>, v: Value) -> R {
     leave(vm, Ok(Value::Nil))
 }
 
-pub const STUB_NAMES: [&str; 9] = [
-    "log", "id", "mk_table", "mk_str", "call0", "call1", "call2", "fail", "mark",
+/// three parameters, returns the first
+pub fn stub_t3(vm: &mut Vm<Host>, a: Value, b: Value, c: Value) -> R {
+    let _ = enter(vm, "t3", &[a, b, c]);
+    leave(vm, Ok(a))
+}
+
+pub const STUB_NAMES: [&str; 10] = [
+    "log", "id", "mk_table", "mk_str", "call0", "call1", "call2", "fail", "mark", "t3",
 ];
 
 pub fn register_stubs(vm: &mut Vm<Host>) {
@@ -238,6 +248,7 @@ pub fn register_stubs(vm: &mut Vm<Host>) {
     vm.register_native_function("call2", into_f3(stub_call2)).unwrap();
     vm.register_native_function("fail", into_f1(stub_fail)).unwrap();
     vm.register_native_function("mark", into_f1(stub_mark)).unwrap();
+    vm.register_native_function("t3", into_f3(stub_t3)).unwrap();
 }
 
 pub fn error_kind(e: &ExecutionErrorPayload) -> String {
